@@ -69,7 +69,7 @@ def run(check: Check) -> None:
     appends = []
     for n, c in cfg.find_calls(".append"):
         recv = r.term(c.func.value, n)  # type: ignore[union-attr]
-        if any(a == ("param", "errors") for a in ([recv] if recv[0] != "phi" else recv[1])):
+        if any(s_ == ("param", "errors") for s_ in walk(recv)):
             appends.append(n)
     if not appends:
         raise AnalysisError("Engine.is_ready: no error report sites (errors.append) found")
@@ -85,7 +85,43 @@ def run(check: Check) -> None:
         def is_elem(t: Term) -> bool:
             return t[0] == "elem" and is_path(iter_base(t[1])[0], loop_path)
 
+        # need quantities: local accumulators whose increments (or the guards of their increments) consult a marker
+        def markers_of_var(name: str, depth: int = 0, seen: frozenset = frozenset()) -> frozenset[str]:
+            if name in seen or depth > 4:
+                return frozenset()
+            out: set[str] = set()
+            for n in body:
+                for d in cfg.defs_at(n):
+                    if d.name != name or d.value is None:
+                        continue
+                    out |= markers_in(r.term(d.value, n))
+                    for g, pol, gn in cfg.must_guards(n):
+                        if gn not in body:
+                            continue
+                        out |= markers_in(r.term(g, gn))
+                        for x in ast.walk(g):
+                            if isinstance(x, ast.Name):
+                                out |= markers_of_var(x.id, depth + 1, seen | {name})
+                    for x in ast.walk(d.value):
+                        if isinstance(x, ast.Name) and x.id != name:
+                            out |= markers_of_var(x.id, depth + 1, seen | {name})
+            return frozenset(out)
+
+        need_by_term: dict[Term, str] = {}
+        for n in body:
+            if n.kind != "test":
+                continue
+            for x in ast.walk(n.ast):  # type: ignore[arg-type]
+                if isinstance(x, ast.Name) and cfg.defs_reaching(x.id, n):
+                    t_ = r.name_term(x.id, n)
+                    if is_accumulator(t_):
+                        role = NEED_BY_MARKER.get(markers_of_var(x.id))
+                        if role:
+                            need_by_term[t_] = role
+
         def classify(t: Term, e: ast.AST) -> str | None:
+            if t in need_by_term:
+                return need_by_term[t]
             if t[0] == "attr" and is_elem(t[1]) and f"has_{t[2]}" in bools:
                 return f"has_{t[2]}"
             if t[0] == "call" and t[1] == ("global", "isinstance") and len(t[2]) == 2 and t[2][0][0] == "attr" and \
